@@ -1,4 +1,5 @@
 import Aergo.Props.C03
+#print axioms Aergo.Props.C03.base_fee_is_the_source
 #print axioms Aergo.Props.C03.executeTx_trichotomy
 #print axioms Aergo.Props.C03.outcomes_exclusive
 #print axioms Aergo.Props.C03.failed_only_fee_and_nonce_partial
